@@ -30,16 +30,20 @@ Ridges == { << << <<100, -2000>>, <<100, 3000>> >> >>,                          
             << << <<100, -2000>>, <<100, 500>> >>, << <<300, 500>>, <<300, 3000>> >> >>,                    \* two segments, transform offset
             << << <<100, -2000>>, <<400, 3000>> >> >> }                                                    \* oblique
 OModels == {"half space model", "plate model", "plate model constant age"}
-OCase == [model : OModels, ridge : Ridges, vel : {1, 5, 10}, varying : BOOLEAN]
+(* tb: the bottom temperature, 1600 K or -1 (= the adiabat at that depth); under: a hot (1900 K) mantle layer is listed before the
+   plate and reaches through its depth range -- a model that REPLACES the temperature does not care what was painted before *)
+OCase == {c \in [model : OModels, ridge : Ridges, vel : {1, 5, 10}, varying : BOOLEAN, tb : {1600, -1}, under : BOOLEAN] :
+            (c.under \/ c.tb = -1) => (~c.varying /\ c.vel = 5)}
 
 P(x, y) == <<x * Km, y * Km>>
 ODoc(c) ==
   LET L == IF c.varying THEN << <<70 * Km, <<P(100, 100), P(100, 1100)>>>>, <<130 * Km, <<P(1100, 100), P(1100, 1100)>>>> >> ELSE 120 * Km
-      m ==    ("model" :> c.model) @@ ("min depth" :> 0) @@ ("max depth" :> L) @@ ("top temperature" :> 273) @@ ("bottom temperature" :> 1600)
+      m ==    ("model" :> c.model) @@ ("min depth" :> 0) @@ ("max depth" :> L) @@ ("top temperature" :> 273) @@ ("bottom temperature" :> c.tb)
            @@ (IF c.model = "plate model constant age" THEN ("plate age" :> Mul(c.vel, 10000000))
                ELSE ("spreading velocity" :> Dec(c.vel, -2))
                     @@ ("ridge coordinates" :> [i \in 1..Len(c.ridge) |-> [j \in 1..Len(c.ridge[i]) |-> P(c.ridge[i][j][1], c.ridge[i][j][2])]]))
-  IN WorldOf(<<Area("oceanic plate", "f", Rect(100 * Km, 100 * Km, 1100 * Km, 1100 * Km), 0, L, <<m>>, <<>>, <<>>, <<>>)>>)
+  IN WorldOf((IF c.under THEN <<Area("mantle layer", "hot", Rect(-500 * Km, -500 * Km, 2000 * Km, 2000 * Km), 0, 250 * Km, <<TUniform(1900, "replace")>>, <<>>, <<>>, <<>>)>> ELSE <<>>)
+             \o <<Area("oceanic plate", "f", Rect(100 * Km, 100 * Km, 1100 * Km, 1100 * Km), 0, L, <<m>>, <<>>, <<>>, <<>>)>>)
 
 (* local plate thickness at x km (km): 70 + 60 (x - 100) / 1000 when varying, else 120 *)
 Thick10(c, x) == IF c.varying THEN 700 + (6 * (x - 100)) \div 10 ELSE 1200        \* in units of 100 m
@@ -55,25 +59,27 @@ VRowsAt(c, S) == LET ps == SetToSeq(S) IN
 HRows(c) == LET ps == SetToSeq(YS \X {5, 30, 60}) IN
             FlattenSeq([k \in 1..Len(ps) |-> [i \in 1..7 |->
                <<(450 + 90 * (i - 1)) * Km, ps[k][1] * Km, HM - ps[k][2] * Km, ps[k][2] * Km, k>>]])
+Hot(c) == IF c.tb = -1 THEN Adiabat(V("$3")) ELSE 1600          \* the hot end member at the row's depth (cell 3)
 OBehaviour(c) ==
-  [id |-> <<"envelope-ocean", c>>, labels |-> <<"envelope", c.model, IF c.varying THEN "varying-thickness" ELSE "constant-thickness">>,
+  [id |-> <<"envelope-ocean", c>>, labels |-> <<"envelope", c.model, IF c.varying THEN "varying-thickness" ELSE "constant-thickness",
+                                             IF c.tb = -1 THEN "adiabatic-bottom" ELSE "given-bottom", IF c.under THEN "painted-underneath" ELSE "on-background">>,
    steps |-> << [op |-> "create", h |-> 1, wb |-> ODoc(c)],
-                [op |-> "qtable", h |-> 1, dim |-> 3, props |-> <<PT>>, rowlet |-> << <<"lo", 273>>, <<"hi", 1600>> >>,
+                [op |-> "qtable", h |-> 1, dim |-> 3, props |-> <<PT>>, rowlet |-> << <<"lo", 273>>, <<"hi", Hot(c)>> >>,
                  checks |-> <<[k |-> "between", at |-> 0, col |-> 5, col2 |-> 6, slack |-> Dec(1, -9)], [k |-> "monotone", at |-> 0, col |-> 4, dir |-> "up", slack |-> Dec(1, -9)]>>,
                  rows |-> VRowsAt(c, XS \X YS)],
                 \* the same along vertical probes on and next to the ridge (zero and very small ages)
-                [op |-> "qtable", h |-> 1, dim |-> 3, props |-> <<PT>>, rowlet |-> << <<"lo", 273>>, <<"hi", 1600>> >>,
+                [op |-> "qtable", h |-> 1, dim |-> 3, props |-> <<PT>>, rowlet |-> << <<"lo", 273>>, <<"hi", Hot(c)>> >>,
                  checks |-> <<[k |-> "between", at |-> 0, col |-> 5, col2 |-> 6, slack |-> Dec(1, -9)], [k |-> "monotone", at |-> 0, col |-> 4, dir |-> "up", slack |-> Dec(1, -9)]>>,
                  rows |-> VRowsAt(c, Young(c))] >>
              \o (IF c.model = "plate model constant age" THEN <<>> ELSE
-                 <<[op |-> "qtable", h |-> 1, dim |-> 3, props |-> <<PT>>, rowlet |-> << <<"lo", 273>>, <<"hi", 1600>> >>,
+                 <<[op |-> "qtable", h |-> 1, dim |-> 3, props |-> <<PT>>, rowlet |-> << <<"lo", 273>>, <<"hi", Hot(c)>> >>,
                     checks |-> <<[k |-> "between", at |-> 0, col |-> 5, col2 |-> 6, slack |-> Dec(1, -9)], [k |-> "monotone", at |-> 0, col |-> 4, dir |-> "down", slack |-> Dec(1, -9)]>>,
                     rows |-> HRows(c)]>>)
              \* boundary values: top temperature at the top; bottom temperature at the local bottom of the plate models
              \o <<[op |-> "qtable", h |-> 1, dim |-> 3, props |-> <<PT>>, checks |-> <<[k |-> "tol", at |-> 0, col |-> 4, rel |-> Dec(1, -6), abs |-> Dec(1, -6)]>>,
                    rows |-> [i \in 1..3 |-> LET x == <<300, 600, 900>>[i] IN <<x * Km, 500 * Km, HM, 0, 273>>]
                             \* (with a laterally varying thickness the series still uses one plate thickness: only the envelope is asserted there)
-                            \o (IF c.model = "half space model" \/ c.varying THEN <<>>
+                            \o (IF c.model = "half space model" \/ c.varying \/ c.tb = -1 THEN <<>>
                                 ELSE [i \in 1..3 |-> LET x == <<300, 600, 900>>[i] IN <<x * Km, 500 * Km, HM - Thick10(c, x) * 100, Thick10(c, x) * 100, 1600>>])]>>]
 
 (*************************** oceanic plates on the sphere *********************)
